@@ -15,3 +15,26 @@ package bodyprocessors
 //@     invariant forall s string :: in(s, liveTmp) ==> in(s, old(liveTmp)) || in(s, addedVals)
 //@   loop 3
 //@     invariant forall s string :: in(s, liveTmp) ==> in(s, old(liveTmp)) || in(s, addedVals)
+
+// ==== BEGIN C03 request-data section (urlencoded body) ====
+// urlencoded request body (C03): the body text b is parsed once (ParseQuery: for every name k exactly
+// pqLen(b, '&', true, k) values); every Add goes to ARGS_POST (`toArgsPost`) and passes a name of the parsed map
+// together with one of its values (`pair`) -- Add, not Set: an `at call` text that matches no call is a contract
+// error --; the outer loop yields every name once and at the end of its iteration all values of that name have been
+// handed to Add (`allOfKey`, ghost addedVals); REQUEST_BODY is b byte-exact (`stored`) and REQUEST_BODY_LENGTH its length (`lengthOfBody`).
+//@ func (*urlencodedBodyProcessor).ProcessRequest props C03,C07
+//@   requires !isnil(v)
+//@   at call "argsCol.Add(k, v)" requires toArgsPost: argsCol == txvArgsPost(old(v))
+//@   at call "argsCol.Add(k, v)" requires pair: pqLen(b, '&', true, arg(0)) > 0 && has(values, arg(0)) && values[arg(0)] == vs &&
+//@       len(vs) == pqLen(b, '&', true, arg(0)) && 0 <= rangeindex + 1 && rangeindex + 1 < len(vs) && arg(1) == vs[rangeindex + 1]
+//@   at call "Set(strconv.Itoa(len(b)))" requires stored: payload(txvRequestBody(old(v)), "*collections.Single").data == b
+//@   ensures lengthOfBody: isnil(result) ==> payload(txvRequestBodyLength(v), "*collections.Single").data ==
+//@       itoa(len(payload(txvRequestBody(v), "*collections.Single").data))
+//@   loop 1
+//@     invariant parsed: forall q string :: has(values, q) <==> pqLen(b, '&', true, q) > 0
+//@     invariant parsedCounts: forall q string :: has(values, q) ==> len(values[q]) == pqLen(b, '&', true, q)
+//@     step allOfKey: forall n int :: 0 <= n && n < len(vs) ==> in(vs[n], addedVals)
+//@   loop 2
+//@     invariant -1 <= rangeindex && rangeindex < len(vs) && has(values, k) && values[k] == vs && len(vs) == pqLen(b, '&', true, k)
+//@     invariant added: forall n int :: 0 <= n && n <= rangeindex ==> in(vs[n], addedVals)
+// ==== END C03 request-data section (urlencoded body) ====
